@@ -75,6 +75,10 @@ m('rb-slide-no-w', 'stack/reader.go', "\t\tr.w -= r.r\n", "", 'C03', 'RB-*', not
 m('benign-fill-noguard', 'stack/reader.go', "\tif r.r > 0 {\n\t\tcopy(r.buf[:], r.buf[r.r:r.w])\n\t\tr.w -= r.r\n\t\tr.r = 0\n\t}\n", "\tcopy(r.buf[:], r.buf[r.r:r.w])\n\tr.w -= r.r\n\tr.r = 0\n", 'C09 C03 C11', '', kind='benign', note='unconditional slide: a no-op when r is 0')
 m('benign-bufferfull-ge', 'stack/reader.go', "\t\tif r.w-r.r == len(r.buf) {\n", "\t\tif r.w-r.r >= len(r.buf) {\n", 'C09 C03', '', kind='benign', note='same test, the difference cannot exceed the buffer')
 
+# --- round 5 additions
+m('loc-wiring-swap-goroot', 'stack/context.go', 'r.updateLocations(s.RemoteGOROOT, s.LocalGOROOT, s.LocalGomods, s.RemoteGOPATHs)', 'r.updateLocations(s.LocalGOROOT, s.RemoteGOROOT, s.LocalGomods, s.RemoteGOPATHs)', 'C18', 'LOC-wiring', note='remote and local GOROOT swapped on the way to the frames: the pinned suite passes (remote == local there)')
+m('loc-wiring-swap-maps', 'stack/stack.go', 'r = s.Calls[i].updateLocations(goroot, localgoroot, localgomods, gopaths) && r', 'r = s.Calls[i].updateLocations(goroot, localgoroot, gopaths, localgomods) && r', 'C18', 'LOC-wiring', note='module and GOPATH maps swapped one level down')
+
 out = '/verif/mutants'
 only = sys.argv[1:]
 for mm in M:
